@@ -3,6 +3,7 @@ from __future__ import annotations
 
 import ast
 
+from .families import is_module_function
 from .model import AnalysisError, ClassInfo, Program
 from .symex import (CondI, Alt, Const, CtxV, EnumV, Evaluator, Hole, Inh, InhOr, JoinP, Lit, Obj, One, Opaque, Phi, Rep,
                     RepI, SlotP, Str, Sym, show, walk_parts, negate)
@@ -227,7 +228,12 @@ def render_sites(program: Program):
             if key in seen:
                 continue
             seen.add(key)
-            out.append({"cls": c, "func": part.src[0] if part.src else "?", "line": part.src[1] if part.src else 0,
+            func = part.src[0] if part.src else "?"
+            if part.src and is_module_function(program, func):
+                # a render call inside a module-level helper belongs to the method that calls the helper
+                chain = part.src[3] if len(part.src) > 3 else ()
+                func = next((q for q in reversed(chain) if not is_module_function(program, q)), func)
+            out.append({"cls": c, "func": func, "deffunc": part.src[0] if part.src else "?", "line": part.src[1] if part.src else 0,
                         "file": part.src[2] if part.src else "", "recv": rp, "ctx": part.ctx, "conds": conds,
                         "part": part, "in_rep": in_rep, "method": part.method})
     program.__dict__["_render_sites"] = out
@@ -389,3 +395,63 @@ def node_child_formatted(program: Program, cls: ClassInfo, attr: str) -> bool:
     memo[(cls, attr)] = res
     return res
 
+
+
+HARMLESS_TEXT_OPS = {".strip", ".lstrip", ".rstrip"}     # trim the ends only: the rendered children are delimited (quotes, brackets) or end in a name
+
+
+def _first_text_op(v, depth: int = 0):
+    """name of the outermost string operation (`.split`, `.replace`, ...) inside a symbolic value"""
+    import dataclasses
+    if depth > 8:
+        return None
+    if isinstance(v, Opaque) and v.name.startswith("."):
+        return v.name
+    if isinstance(v, Sym) and v.kind == "call" and v.args and isinstance(v.args[0], str) and v.args[0].startswith("."):
+        return v.args[0]
+    kids = []
+    if isinstance(v, (tuple, list)):
+        kids = list(v)
+    elif isinstance(v, Sym):
+        kids = list(v.args)
+    elif dataclasses.is_dataclass(v):
+        kids = [getattr(v, f.name) for f in dataclasses.fields(v) if f.name not in ("src", "cond", "ctx")]
+    for k in kids:
+        r = _first_text_op(k, depth + 1)
+        if r:
+            return r
+    return None
+
+
+def transformed_renderings(program: Program):
+    """rendered children whose text passes through a string operation before it is printed
+    (`sql.replace("  ", " ")`, `" ".join(sql.split())`, `sql.lower()`): [(class, function, operation, [slots])].
+    The operation rewrites whatever the children printed -- string literals and quoted identifiers included."""
+    cache = program.__dict__.get("_transformed_renderings")
+    if cache is not None:
+        return cache
+    from .symex import slots_in
+    out = []
+    seen = set()
+    for c, (sk, _ev) in skeletons(program).items():
+        for part, _conds, _rep in walk_parts(sk):
+            op = inner = None
+            if isinstance(part, Opaque) and part.name.startswith(".") and part.name not in HARMLESS_TEXT_OPS:
+                op, inner = part.name, slots_in(part.inner)
+            elif isinstance(part, Hole):
+                inner = slots_in(part.value)
+                op = _first_text_op(part.value)
+                if op is None:
+                    continue           # list / tuple plumbing around rendered strings: no character of them is touched
+                if op in (".format", ".format_map") or op in HARMLESS_TEXT_OPS:
+                    inner = None       # a template that is data is C04's finding; trimming is harmless
+            if not inner:
+                continue
+            fn = inner[0].src[0] if inner[0].src else c.qualname
+            key = (fn, op)
+            if key in seen:
+                continue
+            seen.add(key)
+            out.append((c, fn, op, inner))
+    program.__dict__["_transformed_renderings"] = out
+    return out
